@@ -111,7 +111,21 @@ json generate(uint64_t seed, uint64_t idx, int tier)
 	sg.simple = true; // some top-level scalars are bound to application variables
 	json schema = gen_schema(r, sg);
 	plan["schemas"] = json::array({schema});
-	int flags = 0; // title matching under CFGF_NOCASE is not specified by the statement: not generated
+	// case-insensitive runs: the flag on the context and on every titled section, so that every route that compares
+	// titles (add, remove, lookup by path, the parser) uses the same rule
+	int flags = r.chance(1, 4) ? F_NOCASE : 0;
+	if (flags) {
+		std::function<void(json &)> mark = [&](json &opts) {
+			for (auto &o : opts)
+				if (o["t"] == "sec") {
+					if (o.value("fl", 0) & F_TITLE)
+						o["fl"] = o.value("fl", 0) | F_NOCASE;
+					if (o.contains("sub"))
+						mark(o["sub"]);
+				}
+		};
+		mark(schema["opts"]);
+	}
 	int nclients = r.chance(1, 4) ? 2 : 1;
 	if (nclients > 1)
 		for (auto &o : schema["opts"])
